@@ -108,7 +108,7 @@ def near_chain(seed_parts):
     rng = util.rng_for(*seed_parts)
     p = int(rng.integers(2, 9))
     W = np.zeros((p, p))
-    style = int(rng.integers(0, 8))
+    style = int(rng.integers(0, 10))
     sign = float(rng.choice([-1, 1]))
     for i in range(p - 1):
         mag = float(rng.choice([1.0, 2.0, 0.5, 1e-9, 3.7])) if style != 0 else 1.0
@@ -132,6 +132,18 @@ def near_chain(seed_parts):
                     W[a, b] = float(rng.choice([-1, 1])) * float(rng.choice([1e-9, 1e-12, 1e-100, 5e-324]))
         if style == 7:
             W[W == 1.0] = 1.0 + 1e-10      # still exactly a chain pattern, weights merely close to 1
+    if style in (8, 9) and p >= 4:
+        # the exact unit chain plus two chords whose weights cancel (+w, -w): the sum of all weights equals the chain's
+        W = np.zeros((p, p))
+        for i in range(p - 1):
+            W[i, i + 1] = 1.0
+        w = float(rng.choice([0.5, 1.0, 2.0]))
+        chords = [(a, b) for a in range(p) for b in range(a + 2, p)]
+        pick = rng.choice(len(chords), 2, replace=False)
+        W[chords[int(pick[0])]] = w
+        W[chords[int(pick[1])]] = -w
+        if style == 9:
+            W = W.astype(int) if w != 0.5 else W
     return W
 
 
@@ -153,3 +165,24 @@ def repeat_after_overwrite(rec, family, case, prop, name, fn, args, first):
         rec.violation("%s:%s-depends-on-overwritten-earlier-result" % (prop, name), family, case,
                       "%s returns a different graph after the caller overwrote the array returned by an earlier, identical call" % name,
                       first_result=keep, second_result=again)
+
+
+def library_chain_edited(U, seed_parts):
+    """A graph a user builds the usual way: take the library's own chain_graph(p) and edit the array in place (add a chord,
+    reverse or delete an edge).  Returns the edited array (the very object chain_graph returned)."""
+    rng = util.rng_for(*seed_parts)
+    p = int(rng.integers(3, 9))
+    A = U.chain_graph(p)
+    kind = int(rng.integers(0, 4))
+    if kind == 0 and p >= 3:
+        a, b = sorted(int(v) for v in rng.choice(p, 2, replace=False))
+        if b - a >= 2:
+            A[a, b] = 1
+    elif kind == 1:
+        i = int(rng.integers(0, p - 1))
+        A[i, i + 1] = 0
+        A[i + 1, i] = 1
+    elif kind == 2:
+        i = int(rng.integers(0, p - 1))
+        A[i, i + 1] = 0
+    return A
